@@ -250,7 +250,7 @@ func (e *endpoint) Before(mls []orb.LineString) orb.Point {
 	ls := mls[e.Index]
 
 	if e.Start {
-		return ls[0]
+		return ls[1]
 	}
 
 	return ls[len(ls)-2]
@@ -388,6 +388,14 @@ func (e *sortableEndpoints) Len() int {
 func (e *sortableEndpoints) Less(i, j int) bool {
 	if e.eps[i].Side != e.eps[j].Side {
 		return e.eps[i].Side < e.eps[j].Side
+	}
+
+	if e.eps[i].Side != notOnSide && e.eps[i].Point == e.eps[j].Point {
+		// coincident endpoints: order by the direction of the attached edge, in the
+		// order a counter-clockwise walk of the bound meets the edges.
+		p := e.eps[i].Point
+		a, b := e.eps[i].Before(e.mls), e.eps[j].Before(e.mls)
+		return (a[0]-p[0])*(b[1]-p[1])-(a[1]-p[1])*(b[0]-p[0]) < 0
 	}
 
 	switch e.eps[i].Side {
